@@ -368,6 +368,16 @@ def binop(op, a, b):
         return T("op", op, a, b, ty="bool")
     if op in ("<", "<=", ">", ">="):
         return T("op", op, a, b, ty="bool")
+    # floor division / modulo by a positive power of two are shift / mask for every Python int (also negative ones)
+    if op in ("//", "%") and b.k == "const" and isinstance(b.a[0], int) and not isinstance(b.a[0], bool) and b.a[0] > 0 \
+            and (b.a[0] & (b.a[0] - 1)) == 0 and a.ty not in ("float", "bytes", "bytearray", "str") and a.k not in ("bcat", "list", "tuple"):
+        k_ = b.a[0].bit_length() - 1
+        if a.ty == "float" or (a.k == "call" and a.ty != "int" and a.a[0] not in ("divmod",)) :
+            pass
+        elif op == "//":
+            return binop(">>", a, C(k_))
+        else:
+            return binop("&", a, C(b.a[0] - 1))
     # byte strings
     if op == "+" and (a.k == "bcat" or b.k == "bcat" or a.ty in ("bytes", "bytearray") or b.ty in ("bytes", "bytearray")):
         return bcat_concat(as_bcat(a), as_bcat(b))
